@@ -167,7 +167,7 @@ Definition jump_to (p : prog) (m : vm) (target : N) : vm :=
 Definition get_const (p : prog) (i : N) : option value := nth_opt (g_consts p) (N.to_nat i).
 
 Definition matching_blocks (ty : bytes) (res : list value) : list value :=
-  filter (fun b => match b with VBlock t _ _ => bytes_eqb t ty | _ => false end) (rev res).
+  filter (fun b => match b with VBlock t _ _ => bytes_eqb t ty | _ => false end) (frev res).
 
 Definition invalid_types (op : N) (a b : value) : bytes :=
   opcode_name op ++ bs ": invalid types: " ++ vtype a ++ bs ", " ++ vtype b.
